@@ -150,6 +150,11 @@ def Spec.step (sp : Spec) (k : Nat) : Spec × Bool :=
     (⟨k :: sp.accepted, some (sp.newMax k)⟩, true)
   else (sp, false)
 
+/-- the highest element of a list of ids -/
+def highest : List Nat → Option Nat
+  | [] => none
+  | k :: ks => some (match highest ks with | none => k | some m => Nat.max m k)
+
 def Spec.runState (sp : Spec) : List Nat → Spec
   | [] => sp
   | k :: ks => Spec.runState (sp.step k).1 ks
